@@ -307,6 +307,11 @@ func runC09(p *core.Program, r *core.Report) {
 			if bc, isC := path.BoolConst(ret.Results[0]); isC {
 				if bc {
 					c.ob("AG2", fname, "constant true", p.InstrPos(ret), false, "Contains returns true without a lookup")
+				} else {
+					// false without a lookup: only for the empty key, which cannot be stored
+					xk := newPathCtx(p)
+					fs := edgeFacts(xk, fn, ret.Block())
+					c.ob("AG2", fname, "false without a lookup only for the empty key", p.InstrPos(ret), hasFact(fs, "len(key)", "==", "0") || hasFact(fs, "len(key)", "<=", "0") || hasFact(fs, "len(key)", "<", "1"), "Contains answers false without asking Get on a path that has not established that the key is empty: a stored key can be denied")
 				}
 				continue
 			}
